@@ -1,5 +1,6 @@
 import TinsModel.Props.C18
 #print axioms Tins.Props.C18.interleaving_independent
+#print axioms Tins.Props.C18.interleaving_independent_on_path
 #print axioms Tins.Props.C18.race_free
 #print axioms Tins.Props.C18.schedule_irrelevant
 #print axioms Tins.Props.C18.concurrent_eq_sequential
